@@ -298,6 +298,34 @@ def c19_c(ctx):
     ctx.check(ok, ls, 'caller\'s start point untouched', 'th = th_star.copy()',
               'the search mutates the caller\'s start point', fn=ls,
               node=init[0] if init else ls.node)
+    # the advance phase is bounded: a counter in the loop test, reset before every phase and
+    # incremented with every advance (an objective that never exceeds the threshold along the
+    # direction must not hang the search)
+    okb = False
+    if isinstance(wl, ast.While):
+        wt = ex.raw(wl.test)
+        parts = list(wt[2]) if wt[0] == 'bool' and wt[1] == 'and' else [wt]
+        cnt = None
+        for p_ in parts:
+            mm = match_any(p_, ('_r <= rep_lim', '_r < rep_lim', 'rep_lim >= _r', 'rep_lim > _r'))
+            if mm is not None and mm['r'][0] == 'name':
+                cnt = mm['r'][1]
+        if cnt is not None:
+            incs = [n for n in ast.walk(wl) if isinstance(n, ast.AugAssign) and
+                    isinstance(n.op, ast.Add) and isinstance(n.target, ast.Name) and
+                    n.target.id == cnt and ex.raw(n.value) == ('const', 1)]
+            resets = [n for n in own_nodes(ls.node) if isinstance(n, ast.Assign) and
+                      isinstance(n.targets[0], ast.Name) and n.targets[0].id == cnt and
+                      ex.raw(n.value) == ('const', 0)]
+            okb = len(incs) == 1 and \
+                getattr(incs[0], '_parent', None) is getattr(adv[0], '_parent', None) and \
+                bool(resets) and all(enclosing_loop(r) is enclosing_loop(wl) for r in resets) \
+                and g.must_precede([ctx.node(ls, r) for r in resets], g.by_stmt[id(wl)])
+    ctx.check(okb, ls, 'advance phase bounded by the repetition limit',
+              'rep = 0; while f(th) < eps and rep <= rep_lim: ...; rep += 1',
+              'the advancing loop is not bounded by a counter that is reset before the phase and '
+              'incremented with every advance: the search may not return', fn=ls,
+              node=wl if isinstance(wl, ast.While) else adv[0])
     # build(): negative direction negated, box row [v1, v2], centre = optimum
     rc = ctx.cls(ROMC + ':RegionConstructor')
     bd = ctx.own_method(rc, 'build')
